@@ -31,6 +31,7 @@ type c10Case struct {
 	Others   []string            `json:"others,omitempty"`   // web: requests served before / concurrently
 	Profile2 string              `json:"profile2,omitempty"` // web: a second (small) and a third (large) profile for
 	Profile3 string              `json:"profile3,omitempty"` //      sessions living in the same process
+	Light    bool                `json:"light,omitempty"`    // web: expensive (large-profile) case — fewer rounds per phase
 	RealObj  bool                `json:"real_obj,omitempty"` // the profile's mapping is a real ELF binary of the tree under test; default ObjTool
 	Refs     map[string][]string `json:"refs,omitempty"`     // web: fresh-process references (filled in by the parent)
 	Flags    map[string]string   `json:"flags,omitempty"`    // web: process options without URL parameter (command-line flags)
@@ -465,24 +466,37 @@ func c10Confirm(pprofBin, dir, tag string, mainScript, mainOuts, refScript []str
 			return false // confirmed once in this run; later instances are not re-examined
 		}
 	}
-	if got.mkey() == want.mkey() {
-		out.Hits = append(out.Hits, "C08-run-to-run-order-only-difference:"+c10CmdName(line))
-		return false
-	}
-	stable := func(script, outs []string, name string, expect string) bool {
+	// both sides are repeated 5 times; exact observations and order-erased ones (token bags) are collected
+	rerun := func(script, outs []string, name string) (exact, bags map[string]bool) {
+		exact, bags = map[string]bool{}, map[string]bool{}
 		for t := 0; t < 5; t++ {
 			s := c10RunSession(pprofBin, dir, fmt.Sprintf("%s-%s%d", tag, name, t), script, outs, false)
-			if s.Err != "" || len(s.Segs) != len(script) || s.Segs[len(s.Segs)-1].mkey() != expect {
-				return false
+			if s.Err != "" || len(s.Segs) != len(script) {
+				exact["<session failed>"], bags["<session failed>"] = true, true
+				continue
 			}
+			exact[s.Segs[len(s.Segs)-1].key()] = true
+			bags[s.Segs[len(s.Segs)-1].mkey()] = true
 		}
-		return true
+		return
 	}
 	last := ""
 	if len(mainOuts) > 0 {
 		last = mainOuts[len(mainOuts)-1]
 	}
-	if !stable(refScript, c10Outs(len(refScript), last), "r", want.mkey()) || !stable(mainScript, mainOuts, "m", got.mkey()) {
+	re, rb := rerun(refScript, c10Outs(len(refScript), last), "r")
+	me, mb := rerun(mainScript, mainOuts, "m")
+	only := func(m map[string]bool, k string) bool { return len(m) == 1 && m[k] }
+	switch {
+	case only(re, want.key()) && only(me, got.key()):
+		// both sides reproduce their observation byte for byte: a stable difference, even if it is "only" a
+		// different order of the same lines
+	case got.mkey() == want.mkey():
+		out.Hits = append(out.Hits, "C08-run-to-run-order-only-difference:"+c10CmdName(line))
+		return false
+	case only(rb, want.mkey()) && only(mb, got.mkey()):
+		// the order varies from run to run, the content differs stably
+	default:
 		out.Hits = append(out.Hits, "C08-run-to-run-nondeterministic-output:"+c10CmdName(line))
 		return false
 	}
@@ -658,8 +672,27 @@ func runC10(c *Ctx) {
 		return
 	}
 	r := NewRng(c.Seed)
+	// large-input web cases: serialized profile > 1 MiB, a different filter in every overlapping request.
+	// They are the slowest cases of a run, so they start right away and run beside the interactive stream.
+	var largeCases []*c10Case
+	for k := 0; k < 2*c.Scale; k++ {
+		p := c10GenProfileLarge(r, 5<<18) // ≥ 1.25 MiB
+		b, _ := c10WriteU(p)
+		cs := &c10Case{Kind: "web", Profile: hex.EncodeToString(b), Light: true}
+		cs.Request, cs.Others = c10LargeWebRequests(r)
+		b2, _ := c10WriteU(c10GenProfileSized(r, 4, 3))
+		cs.Profile2, cs.Profile3 = hex.EncodeToString(b2), hex.EncodeToString(b2)
+		largeCases = append(largeCases, cs)
+		c.Res.Hit(fmt.Sprintf("large-profile-web-case(%dKiB)", len(b)>>10))
+	}
+	largeOuts := make([][]c10WebOut, len(largeCases))
+	var largeWG sync.WaitGroup
+	for i, cs := range largeCases {
+		largeWG.Add(1)
+		go func(i int, cs *c10Case) { defer largeWG.Done(); largeOuts[i] = c10WebRun(c, cs) }(i, cs)
+	}
 	// ---------------- interactive stream ----------------
-	n := 300 * c.Scale
+	n := 240 * c.Scale
 	type job struct {
 		cs *c10Case
 		m  *c10Model
@@ -785,7 +818,7 @@ func runC10(c *Ctx) {
 		c10Fold(c, j.cs, j.m, j.o, true)
 	}
 	// ---------------- web stream: one child process per case ----------------
-	nw := 64 * c.Scale
+	nw := 52 * c.Scale
 	wcases := make([]*c10Case, nw)
 	for i := range wcases {
 		p := c10GenProfile(r)
@@ -802,6 +835,8 @@ func runC10(c *Ctx) {
 		}
 		wcases[i] = cs
 	}
+	wcases = append(wcases, largeCases...)
+	nw = len(wcases)
 	if realHex != "" {
 		for k := 0; k < 2*c.Scale; k++ {
 			cs := &c10Case{Kind: "web", Profile: realHex, RealObj: true}
@@ -812,7 +847,16 @@ func runC10(c *Ctx) {
 		nw = len(wcases)
 	}
 	outs := make([][]c10WebOut, nw)
-	for i, cs := range wcases {
+	isLarge := map[*c10Case]int{}
+	for i, cs := range largeCases {
+		isLarge[cs] = i
+	}
+	for k := range wcases {
+		i := len(wcases) - 1 - k // the slow real-binary cases (appended last) start first
+		cs := wcases[i]
+		if _, ok := isLarge[cs]; ok {
+			continue // already running
+		}
 		wg.Add(1)
 		sem <- struct{}{}
 		go func(i int, cs *c10Case) {
@@ -822,7 +866,11 @@ func runC10(c *Ctx) {
 		}(i, cs)
 	}
 	wg.Wait()
+	largeWG.Wait()
 	for i, cs := range wcases {
+		if j, ok := isLarge[cs]; ok {
+			outs[i] = largeOuts[j]
+		}
 		filt := false
 		for _, o := range cs.Others {
 			if strings.Contains(o, "?") {
@@ -865,18 +913,25 @@ func c10WebRun(c *Ctx, cs *c10Case) []c10WebOut {
 			refs[f[1]] = append(refs[f[1]], f[2])
 		}
 	}
-	for _, ph := range phases {
-		t := *cs
-		t.Phase, t.Refs = ph, refs
-		r, e := c10WebChild(c, &t)
-		// schedules are not replayable deterministically: when a single case is replayed, the concurrent
-		// phases get up to 8 fresh processes to show what the full run saw
-		for try := 1; c.Replay != "" && try < 8 && (ph == "conc" || ph == "stall") && e == "" && len(r.Findings) == 0; try++ {
-			r, e = c10WebChild(c, &t)
-		}
-		out = append(out, c10WebOut{ph, r, e})
+	res := make([]c10WebOut, len(phases))
+	var wg sync.WaitGroup
+	for i, ph := range phases { // the phases are independent processes: run them side by side
+		wg.Add(1)
+		go func(i int, ph string) {
+			defer wg.Done()
+			t := *cs
+			t.Phase, t.Refs = ph, refs
+			r, e := c10WebChild(c, &t)
+			// schedules are not replayable deterministically: when a single case is replayed, the concurrent
+			// phases get up to 8 fresh processes to show what the full run saw
+			for try := 1; c.Replay != "" && try < 8 && (ph == "conc" || ph == "stall") && e == "" && len(r.Findings) == 0; try++ {
+				r, e = c10WebChild(c, &t)
+			}
+			res[i] = c10WebOut{ph, r, e}
+		}(i, ph)
 	}
-	return out
+	wg.Wait()
+	return append(out, res...)
 }
 
 func c10WebFold(c *Ctx, cs *c10Case, _ bool) { c10WebMerge(c, cs, c10WebRun(c, cs)) }
